@@ -19,7 +19,7 @@ def isPrefix (pre s : String) : Bool := pre.toList.isPrefixOf s.toList
 def allowed (s : Site) : Bool :=
   -- sort.Interface's Less cannot return an error: the sorters record it in a field (`hasError`) and
   -- sort_by returns an error when the field is set
-  (s.status == .flagged && isSuffix ").Less" s.fn && s.callee == "(*treeInterpreter).Execute") ||
+  (s.status == .flagged && isSuffix ").Less" s.fn) ||
   -- to_number of a string that is not a number is null (the function specification)
   (s.fn == "jpfToNumber" && s.callee == "strconv.ParseFloat" && s.status == .swallowed) ||
   -- writes into in-memory buffers never fail
